@@ -228,12 +228,31 @@ class ConcreteWorld(_World):
         if u == self.bdd.false:
             return z3.BoolVal(False)
         supp = sorted(self.bdd.support(u))
-        cubes = list()
-        for d in self.bdd.pick_iter(u, care_vars=supp):
-            cubes.append(z3.And(*[
-                self.z(k) if v else z3.Not(self.z(k))
-                for k, v in d.items()]) if d else z3.BoolVal(True))
-        return z3.Or(*cubes) if cubes else z3.BoolVal(False)
+        if len(supp) <= 12:
+            cubes = list()
+            for d in self.bdd.pick_iter(u, care_vars=supp):
+                cubes.append(z3.And(*[
+                    self.z(k) if v else z3.Not(self.z(k))
+                    for k, v in d.items()]) if d else z3.BoolVal(True))
+            return z3.Or(*cubes) if cubes else z3.BoolVal(False)
+        # large supports: follow the diagram (linear in its size) instead of
+        # enumerating assignments; a reference may be complemented, the
+        # successors belong to the regular node
+        memo = dict()
+        true, false = self.bdd.true, self.bdd.false
+
+        def rec(v):
+            if v == true:
+                return z3.BoolVal(True)
+            if v == false:
+                return z3.BoolVal(False)
+            if v.negated:
+                return z3.Not(rec(~ v))
+            k = int(v)
+            if k not in memo:
+                memo[k] = z3.If(self.z(v.var), rec(v.high), rec(v.low))
+            return memo[k]
+        return rec(u)
 
     def valid(self, t):
         used = specbdd._consts(t)
